@@ -2,6 +2,7 @@ import BM.Sanitize
 import BM.Spec.Oracles
 import BM.Proofs.PassInv
 import BM.Proofs.Prov
+import BM.Proofs.UrlScheme
 /-
   C03: URL attributes carry only allowed schemes (or allowed relative URLs).
 
@@ -174,6 +175,28 @@ theorem C03_bytes (p : Policy) (hp : Plain p.ensureInit) (hreq : p.ensureInit.re
   have hne : k.attrs ≠ [] := by intro h; rw [h] at hb; simp at hb
   obtain ⟨t, _, aps, _, _, hs⟩ := reread_open_tag p hp input k hk htt hne
   exact C03_sanitizeAttrs p.ensureInit hreq k.data t.attrs aps k.attrs hs b hb
+
+/-- **C03, what a browser makes of an accepted URL** (scheme half of the bridge): a value
+    `validURL` returns either is classified by the WHATWG scheme-state rules as having a scheme —
+    and then that scheme is on the policy's allowlist (approved by a custom check when some are
+    registered) or matched by a scheme pattern — or it is the printed form of a scheme-less URL,
+    relative URLs being allowed.  In particular no value with a scheme the policy does not accept
+    (javascript:, vbscript:, data:, … however the input spelled, padded or entity-encoded it) comes
+    out.  Not proved: that a browser also reads the scheme-less printed form as relative. -/
+theorem C03_browser_scheme (p : Policy) (hreq : p.requireParseableURLs = true) (raw v : Bytes)
+    (h : p.validURL raw = some v) :
+    (∃ s, Spec.classifyUrl v = .scheme s ∧ s ≠ [] ∧
+      ((∃ checks, p.allowURLSchemes.get? s = some checks) ∨ p.allowURLSchemeRegexps.any (·.test s) = true)) ∨
+    (∃ u : Url.URL, v = Url.print u ∧ u.scheme = [] ∧ p.allowRelativeURLs = true ∧ v ≠ []) := by
+  obtain ⟨raw', u, hp, hv, hacc⟩ := validURL_sound p raw v hreq h
+  rcases hacc with ⟨hne, hs⟩ | ⟨he, hrel, hnonempty⟩
+  · left
+    refine ⟨u.scheme, ?_, hne, ?_⟩
+    · rw [hv]; exact Url.printed_scheme_is_browser_scheme raw' u hp hne
+    · rcases hs with ⟨checks, hget, _⟩ | ⟨_, hre⟩
+      · exact .inl ⟨checks, hget⟩
+      · exact .inr hre
+  · exact .inr ⟨u, hv, he, hrel, by rw [hv]; exact hnonempty⟩
 
 example :
     let p : Policy := { initialized := true, requireParseableURLs := true, allowURLSchemes := [(b!"https", [])] }
